@@ -27,8 +27,10 @@ ALLOWED_AXIOMS = {
 
 TRUSTED_BASE = [
     "Coq 8.16.1 kernel (coqc, full .vo build; vm_compute only in Examples/finite sweeps; no native_compute)",
-    "axioms: none for theorems over the abstract FieldT; theorems instantiated at R use the stdlib real axioms "
-    "(sig_not_dec, sig_forall_dec, functional_extensionality_dep); Print Assumptions is parsed on every run",
+    "axioms: none for theorems over the abstract FieldT (Print Assumptions is parsed on every run: every property theorem is closed under the "
+    "global context); Examples instantiated at Coq's classical reals (Props/C19.v, Base/RealInst.v) load the stdlib axioms "
+    "ClassicalDedekindReals.sig_not_dec, ClassicalDedekindReals.sig_forall_dec, FunctionalExtensionality.functional_extensionality_dep and "
+    "Classical_Prop.classic, which coqchk -o (thorough tier) therefore lists for that library context",
     "extraction: ExtrOcamlBasic only (bool, option, unit, list, prod, sumbool, sumor, andb, orb); "
     "Z/positive/Q/Qc stay extracted datatypes; OCaml driver (Zarith I/O only)",
     "correspondence harness (generators, tolerances) and NumPy/JAX numerics",
@@ -130,7 +132,8 @@ def coqchk(prop_file, timeout=1500):
     parts = [x.strip() for x in m.groups()]
     axioms = [] if parts[0] == "<none>" else [a.strip() for a in parts[0].split("\n") if a.strip()]
     unsafe = [x for x in parts[1:] if x != "<none>"]
-    bad = [a for a in axioms if a.split(":")[0].strip() not in ALLOWED_AXIOMS]
+    # coqchk lists the axioms of EVERY loaded library (e.g. the classical reals imported for one Example), fully qualified
+    bad = [a for a in axioms if not any(a.split(":")[0].strip().endswith(x) for x in ALLOWED_AXIOMS)]
     return dict(ok=(not bad and not unsafe), axioms=axioms, log=text[-1500:])
 
 
